@@ -154,6 +154,9 @@ def words_of(case, x, k):
     return list(dict.fromkeys(out))
 
 
+_MIXABLE = re.compile(r'^[A-Za-z0-9.+_~-]+$')
+
+
 def check_word(s, case):
     """End-to-end checks of one concrete string.  Returns list of
     (kind, detail)."""
@@ -200,6 +203,33 @@ def check_word(s, case):
     if not ok:
         errs.append(('value', 'load(%r) = %r (%s), reference type %s' % (
             s, v, type(v).__name__, ref)))
+    elif _MIXABLE.match(s):
+        # the same text quoted and plain in one document: the quoted one is
+        # a string, the plain one what it is on its own, in either order
+        q = json.dumps(s)
+
+        def same(a, b):
+            if type(a) is float and type(b) is float:
+                return same_float(a, b)
+            return type(a) is type(b) and a == b
+        for text, exp in (('[%s, %s]' % (q, s), [s, v]),
+                          ('[%s, %s]' % (s, q), [v, s]),
+                          ('{a: %s, b: %s, c: %s}' % (s, q, s),
+                           {'a': v, 'b': s, 'c': v})):
+            try:
+                got2 = st['load'](text)
+            except Exception as e:  # noqa
+                errs.append(('value', 'load(%r) raised %s: %s' % (
+                    text, type(e).__name__, str(e)[:150])))
+                break
+            g = list(got2.values()) if isinstance(got2, dict) else got2
+            x = list(exp.values()) if isinstance(exp, dict) else exp
+            if not (isinstance(g, list) and len(g) == len(x) and
+                    all(same(a, b) for a, b in zip(g, x))):
+                errs.append(('value', 'load(%r) = %r, expected %r: a quoted '
+                             'and a plain scalar with the same text influence '
+                             'each other' % (text, got2, exp)))
+                break
     return errs, True
 
 
